@@ -81,6 +81,10 @@ pub trait Sc: cgmath::BaseFloat + Debug + 'static {
     fn show(&self) -> String;
     /// is the value an integer?
     fn is_int(&self) -> Tri;
+    /// x*x (tight at Iv: never negative)
+    fn sq(self) -> Self {
+        self * self
+    }
     /// widen by k ulps (identity for exact engines)
     fn widen(self, _k: u32) -> Self {
         self
@@ -176,6 +180,9 @@ impl Sc for Iv {
     }
     fn widen(self, k: u32) -> Iv {
         Iv::widen(self, k)
+    }
+    fn sq(self) -> Iv {
+        self.sqr()
     }
     fn is_int(&self) -> Tri {
         if self.is_point() {
